@@ -319,6 +319,70 @@ def r5_prefix_tables(ctx):
         raise AnalysisError("no printed # prefixes found: extractor out of date")
 
 
+META_PRINTERS = {
+    "src/basilisp/lang/list.py": "PersistentList",
+    "src/basilisp/lang/vector.py": "PersistentVector",
+    "src/basilisp/lang/set.py": "PersistentSet",
+    "src/basilisp/lang/queue.py": "PersistentQueue",
+    "src/basilisp/lang/map.py": "PersistentMap",
+}
+
+
+@rule("C03.R6", floor=9)
+def r6_metadata_printed_and_read(ctx):
+    """'with metadata preserved under *print-meta*': every collection of the readable universe that
+    carries metadata hands it to its printing helper (`meta=self._meta`), both helpers write
+    `^<meta> ` before the form exactly when print_meta is on and there is metadata, the symbol
+    printer does the same itself, and the reader has the `^` entry that attaches the map it reads to
+    the next form (merging with, not replacing, what that form already carries)."""
+    for rel, cname in sorted(META_PRINTERS.items()):
+        cls = P.find_def(ctx.py(rel), cname)
+        if cls is None:
+            raise AnalysisError(f"anchor vanished: {rel}::{cname}")
+        lr = P.methods(cls).get("_lrepr")
+        if lr is None:
+            raise AnalysisError(f"anchor vanished: {rel}::{cname}._lrepr")
+        calls = [c for c in P.calls(lr) if P.un(c.func).split(".")[-1].lstrip("_") in ("seq_lrepr", "map_lrepr")]
+        ok = bool(calls) and all(any(k.arg == "meta" and P.un(k.value) == "self._meta" for k in c.keywords) for c in calls)
+        ctx.ob("C03.R6", f"{rel}::{cname}._lrepr passes meta=self._meta", rel, lr.lineno, ok,
+               "" if ok else f"{cname} does not hand its metadata to the printing helper: (binding [*print-meta* true] (pr-str (with-meta x {{:a 1}}))) loses the metadata",
+               witness="(binding [*print-meta* true] (read-string (pr-str (with-meta [1] {:a 1}))))")
+    for rel, fname in ((OBJ, "seq_lrepr"), (MAP, "map_lrepr")):
+        fn = ctx.fn(rel, fname)
+        g = None
+        rets = [r for r in ast.walk(fn) if isinstance(r, ast.Return) and isinstance(r.value, ast.JoinedStr)]
+        with_meta = [r for r in rets if any(isinstance(v, ast.Constant) and isinstance(v.value, str) and v.value.startswith("^") for v in r.value.values[:1])
+                     and any(isinstance(v, ast.FormattedValue) and "lrepr(meta" in P.un(v.value).replace(" ", "") for v in r.value.values)]
+        ok = False
+        if with_meta:
+            r = with_meta[0]
+            par = P.parent(r)
+            t = P.un(par.test).replace('kwargs["print_meta"]', "print_meta").replace("kwargs['print_meta']", "print_meta") if isinstance(par, ast.If) else ""
+            ok = t in ("print_meta and meta", "meta and print_meta") and r in par.body
+            # the meta map is followed by a separator before the form
+            vals = r.value.values
+            sep = [v for v in vals[1:] if isinstance(v, ast.Constant) and isinstance(v.value, str) and v.value.startswith(" ")]
+            ok = ok and bool(sep)
+        ctx.ob("C03.R6", f"{rel}::{fname} writes `^<meta> ` before the form iff print_meta and meta", rel, fn.lineno, ok,
+               "" if ok else f"{fname} does not print the metadata prefix under exactly `print_meta and meta`")
+    sm = P.find_def(ctx.py("src/basilisp/lang/symbol.py"), "Symbol")
+    lr = P.methods(sm).get("_lrepr") if sm is not None else None
+    if lr is None:
+        raise AnalysisError("anchor vanished: Symbol._lrepr")
+    txt = P.un(lr)
+    ok = "print_meta" in txt and "self._meta" in txt and "^" in txt
+    ctx.ob("C03.R6", "src/basilisp/lang/symbol.py::Symbol._lrepr prints ^meta under print_meta", "src/basilisp/lang/symbol.py", lr.lineno, ok, "" if ok else "the symbol printer ignores *print-meta*")
+    rd = P.module_assign(ctx.py(RD), "_read_dispatch")
+    ent = {k.value: P.un(v) for k, v in zip(rd.keys, rd.values) if isinstance(k, ast.Constant)} if isinstance(rd, ast.Dict) else {}
+    ok = ent.get("^") == "_read_meta"
+    ctx.ob("C03.R6", f"{RD}::_read_dispatch['^'] -> _read_meta", RD, getattr(rd, "lineno", 0), ok, "" if ok else "the reader has no `^` entry: printed metadata cannot be read back")
+    rm = ctx.fn(RD, "_read_meta")
+    txt = P.un(rm)
+    ok = "with_meta(" in txt and "cons(" in txt
+    ctx.ob("C03.R6", f"{RD}::_read_meta merges the map it read into the form's metadata", RD, rm.lineno, ok,
+           "" if ok else "_read_meta replaces instead of merging: nested ^a ^b prefixes or reader location keys drop metadata")
+
+
 @rule("C03.R7", floor=1)
 def r7_regex_escape_symmetry(ctx):
     """The regex reader reads its literal raw (backslashes kept as written); the regex printer must
@@ -334,6 +398,14 @@ def r7_regex_escape_symmetry(ctx):
 
 
 SELFTEST = [
+    {"name": "vector printer forgets its metadata", "file": "src/basilisp/lang/vector.py", "expect": "C03.R6",
+     "old": "        return _seq_lrepr(self._inner, \"[\", \"]\", meta=self._meta, **kwargs)\n", "new": "        return _seq_lrepr(self._inner, \"[\", \"]\", **kwargs)\n"},
+    {"name": "seq printer writes metadata only when print_meta is off", "file": OBJ, "expect": "C03.R6",
+     "old": "    if print_meta and meta:\n        return f\"^{lrepr(meta, **kwargs)} {start}{seq_lrepr}{end}\"\n", "new": "    if meta and not print_meta:\n        return f\"^{lrepr(meta, **kwargs)} {start}{seq_lrepr}{end}\"\n"},
+    {"name": "reader replaces instead of merging metadata", "file": RD, "expect": "C03.R6",
+     "old": "        new_meta = (\n            obj_with_meta.meta.cons(meta_map)\n            if obj_with_meta.meta is not None\n            else meta_map\n        )\n", "new": "        new_meta = meta_map\n"},
+    {"name": "twin: seq printer tests meta first", "file": OBJ, "expect": None,
+     "old": "    if print_meta and meta:\n        return f\"^{lrepr(meta, **kwargs)} {start}{seq_lrepr}{end}\"\n", "new": "    if meta and print_meta:\n        return f\"^{lrepr(meta, **kwargs)} {start}{seq_lrepr}{end}\"\n"},
     {"name": "reader loses an escape the printer emits", "file": RD, "expect": "C03.R1", "first": True,
      "old": "    \"v\": \"\\v\",\n", "new": ""},
     {"name": "printer emits an escape the reader lacks", "file": OBJ, "expect": "C03.R1",
